@@ -486,16 +486,21 @@ def c04_r3(ctx):
 @rule("C04.R5", "__all__ lists exactly the re-exported names", min_instances=2)
 def c04_r5(ctx):
     fi = ctx.repo.func("client_generators.init_file:InitFileGenerator.generate")
-    o = [x for x in Interp(fi, lambda e: (True if norm(e) == "self.imports" else False if norm(e) == "self.plugin_manager" else None)).run() if any("loop body once" in t for t in x.trace)]
+    o = [x for x in Interp(fi, lambda e: (True if norm(e) == "self.imports" else False if norm(e) == "self.plugin_manager" else None)).run() if not any("loop skipped" in t for t in x.trace)]
     probs = []
     if len(o) != 1:
         probs.append(f"{len(o)} paths")
     else:
+        from ..util import comp_struct
         x = o[0]
         cn = [norm(m) for m in x.muts("constants_names")]
-        if cn[:1] != ["constants_names.extend([n.name for n in <elem>(self.imports).names])"]:
-            probs.append(f"names are collected as {cn[:1]}, expected every name of every import")
-        if "constants_names.sort()" not in cn:
+        built = comp_struct(strip_pre(x.env.get("constants_names"))) if x.env.get("constants_names") is not None else None
+        # every name of every import: a flattening comprehension (the loader writes the extend-loop this way)
+        want_a = ("$1", [("self.imports", []), ("[n.name for n in $0.names]", [])])
+        want_b = ("$1.name", [("self.imports", []), ("$0.names", [])])
+        if built not in (want_a, want_b):
+            probs.append(f"names are collected as {built}, expected every name of every import")
+        if "constants_names.sort()" not in cn and not norm(strip_pre(x.env.get("constants_names") or ast.Constant(0))).startswith("sorted("):
             probs.append("__all__ is not sorted")
         mod = x.env.get("module")
         if mod is None or norm(mod) != "ast.Module(body=self.imports, type_ignores=[])":
@@ -1013,8 +1018,10 @@ def c09_r4(ctx):
     good = isinstance(rv, ast.ListComp) and norm(rv.elt) == norm(rv.generators[0].target) and norm(rv.generators[0].iter) == "self._class_defs" and [norm(i) for i in rv.generators[0].ifs] == [f"{norm(rv.generators[0].target)}.name in types_to_include"]
     ctx.check(good, key(ef, "select"), "enum filter must select classes by name without changing them", ef.loc(), okmsg="enum filter selects by name, classes unchanged")
     ue = repo.func(IT + "get_used_enums")
-    lp = [n for n in ue.node.body if isinstance(n, ast.For)]
-    good = len(lp) == 1 and norm(lp[0].iter) == "self._generated_public_names" and norm(lp[0].body[0]) == f"enums.extend(self._used_enums[{norm(lp[0].target)}])"
+    from ..util import comp_struct
+    o = [x for x in Interp(ue, lambda e: None).run() if x.kind == "return"]
+    cs_ = comp_struct(strip_pre(o[0].deref(o[0].value))) if len(o) == 1 and o[0].value is not None else None
+    good = cs_ == ("$1", [("self._generated_public_names", []), ("self._used_enums[$0]", [])])
     ctx.check(good, key(ue, "retained inputs"), "used enums of the inputs are not those of exactly the retained input classes", ue.loc(), okmsg="used enums = enums of retained inputs")
 
 
